@@ -244,12 +244,12 @@ def run(ctx: core.Run):
             k += 1
             add(kind="mutant", corr=docorr, fixture=name, edits=rec["edits"], rec=rec)
         # every skeleton length/count x (+-1, +-2, x2, max) and a truncation at every block boundary
-        if quick or sizes[name] <= 60_000:
+        if quick or name in names[:40]:
             for _, rec in lc.exhaustive_len_mutants(sm, ("+1", "-1", "x2", "max") if quick else
                                                     ("+1", "-1", "+2", "-2", "x2", "max")):
                 rec["fixture"] = name
                 add(kind="mutant", corr=False, fixture=name, edits=rec["edits"], rec=rec)
-        if sizes[name] <= 300_000:
+        if sizes[name] <= 60_000:
             for _, rec in lc.boundary_truncations(sm, skeleton_only=quick):
                 rec["fixture"] = name
                 add(kind="mutant", corr=False, fixture=name, edits=rec["edits"], rec=rec)
@@ -338,6 +338,9 @@ def run(ctx: core.Run):
                    else (t.get("file") or str(t.get("leaf_seed")))[:64]), nontrivial=accepted)
         if res[0] == "rejected":
             ctx.hist("outcome", "rejected:" + res[1])
+            if t["kind"] in ("corpus", "fixture"):
+                ctx.disagree("an input that was accepted when the check was built is rejected now (%s)" % res[1],
+                             {"kind": t["kind"], "fixture": t.get("fixture"), "note": t.get("note")})
             continue
         ctx.hist("accepted_by_op", op)
         ctx.hist("accepted_by_label", rec.get("label", "?") if rec.get("label") in lc.SKELETON else "payload classes")
